@@ -922,6 +922,10 @@ def geometry_from_atoms(run, repo):
     return n
 
 
+UNDECIDED_ROT = ('rotational temperatures of a structure: the value, where the code reads the structure only through '
+                 'its principal moments, angles and size but is outside the modelled fragment')
+
+
 def rot_from_atoms(run, repo):
     """Rotational temperatures and geometry taken from a structure: theta_k = h^2 / (8 pi^2 kB I_k) for the principal
     moments of inertia I_k (amu A^2 -> kg m^2) that are not zero - three for a nonlinear molecule, one for a linear
@@ -938,18 +942,34 @@ def rot_from_atoms(run, repo):
     n = 0
     coords = ('x1', 'y1', 'z1', 'x2', 'y2', 'z2', 'm_at')
 
+    touched = []
+
     def atoms_obj(I, natoms, angle, moments):
         s = I.D.sym
         o = Obj('atoms')            # an accessor that is not modelled here ends the analysis, it is not an AttributeError
         o.opaque_methods['__len__'] = lambda I_, ob, a, k: C(natoms)
         o.opaque_methods['get_angle'] = lambda I_, ob, a, k: C(angle)
         o.opaque_methods['get_moments_of_inertia'] = lambda I_, ob, a, k: ListV([C(x) for x in moments])
-        # three atoms of one element, centre of mass at the origin, otherwise anywhere
-        r1, r2 = [s('x1'), s('y1'), s('z1')], [s('x2'), s('y2'), s('z2')]
-        r3 = [-(a_ + b_) for a_, b_ in zip(r1, r2)]
-        o.opaque_methods['get_positions'] = lambda I_, ob, a, k: ListV([ListV(list(r)) for r in (r1, r2, r3)][:natoms])
-        o.opaque_methods['get_masses'] = lambda I_, ob, a, k: ListV([s('m_at')] * natoms)
-        o.opaque_methods['get_center_of_mass'] = lambda I_, ob, a, k: ListV([C(0), C(0), C(0)])
+
+        def placed(name, value):
+            def h(I_, ob, a, k):
+                touched.append(name)
+                if value is None:
+                    raise Unsupported('rotational temperatures from a structure: %s of a linear structure or an '
+                                      'atom is not modelled' % name)
+                return value()
+            o.opaque_methods[name] = h
+        if natoms == 3 and angle not in (0, 180):
+            # the bent molecule also answers with where its atoms are: three atoms of one element, centre of mass at
+            # the origin, otherwise anywhere
+            r1, r2 = [s('x1'), s('y1'), s('z1')], [s('x2'), s('y2'), s('z2')]
+            r3 = [-(a_ + b_) for a_, b_ in zip(r1, r2)]
+            placed('get_positions', lambda: ListV([ListV(list(r)) for r in (r1, r2, r3)]))
+            placed('get_masses', lambda: ListV([s('m_at')] * 3))
+            placed('get_center_of_mass', lambda: ListV([C(0), C(0), C(0)]))
+        else:
+            for name in ('get_positions', 'get_masses', 'get_center_of_mass'):
+                placed(name, None)
         return o
 
     def generic_point(I):
@@ -978,18 +998,49 @@ def rot_from_atoms(run, repo):
             if not isinstance(got, ListV) or any(a_ not in known and not a_.startswith('U<') for a_ in ats):
                 raise Unsupported('rotational temperatures from a structure: %s is neither the textbook function of '
                                   'the principal moments nor a rational function of the coordinates' % show(got, 200))
-        run.check(ok, 'REF.rot-temperatures', construct, key,
-                  '%s: got %s, expected h^2/(8 pi^2 kB I) for each non-zero principal moment of inertia = %s%s'
-                  % (what, show(got, 200), show(ListV(list(want)), 200),
-                     '; the result is built from the coordinates as given, so it changes when the molecule is turned'
-                     if isinstance(got, ListV) and atoms_of(got) & set(coords) else ''), mod_, node,
-                  sample='%s %s -> %s' % (construct, key, show(ListV(list(want)), 120)) if 'nonlinear' in key else None)
+        return run.check(
+            ok, 'REF.rot-temperatures', construct, key,
+            '%s: got %s, expected h^2/(8 pi^2 kB I) for each non-zero principal moment of inertia = %s%s'
+            % (what, show(got, 200), show(ListV(list(want)), 200),
+               '; the result is built from the coordinates as given, so it changes when the molecule is turned'
+               if isinstance(got, ListV) and atoms_of(got) & set(coords) else ''), mod_, node,
+            sample='%s %s -> %s' % (construct, key, show(ListV(list(want)), 120)) if 'nonlinear' in key else None)
+
+    owner, init = repo.find_method(ci, '__init__')
+    failed = []
+
+    def judged(*a):
+        if not judge(*a):
+            failed.append(a[4])
+
+    def one(I, at, geom, route, key, want):
+        if route.startswith('RigidRotor'):
+            o = I.construct(ci, [], {'symmetrynumber': C(1), 'atoms': at}, name='rotor')
+            if isinstance(o, Raised):
+                run.fail('REF.rot-temperatures', 'RigidRotor.__init__', key,
+                         'RigidRotor(symmetrynumber=1, atoms=<%s structure>) raises %s' % (geom, o.exc),
+                         owner.module, init)
+                return 2
+            g = get_public(I, o, 'geometry')
+            run.check(g == geom, 'REF.rot-temperatures', 'RigidRotor.__init__', key + ' geometry',
+                      'the geometry taken from a %s structure is %s' % (geom, show(g)), owner.module, init)
+            judged(I, get_public(I, o, 'rot_temperatures'), want, 'RigidRotor.__init__', key,
+                   'rotational temperatures of RigidRotor(symmetrynumber=1, atoms=<%s structure>)' % geom,
+                   owner.module, init)
+            return 2
+        kw = {'atoms': at}
+        if route.endswith('geometry)'):
+            kw['geometry'] = geom
+        got = I.call_function(m, fn, [], kw)
+        judged(I, got, want, 'rot.get_rot_temperatures_from_atoms',
+               key + (' geometry given' if 'geometry' in kw else ''),
+               'rotational temperatures of a %s structure' % geom, m, fn)
+        return 1
 
     cases = (('nonlinear', 3, Fr(104), (Fr(3, 5), Fr(7, 6), Fr(53, 30))),
              ('linear', 3, Fr(180), (Fr(0), Fr(7, 6), Fr(7, 6))),
              ('linear', 2, Fr(180), (Fr(0), Fr(11, 10), Fr(11, 10))),
              ('monatomic', 1, Fr(0), (Fr(0), Fr(0), Fr(0))))
-    owner, init = repo.find_method(ci, '__init__')
     run.fn(SM + '.rot.get_rot_temperatures_from_atoms', owner.qual + '.__init__')
     for geom, natoms, angle, moments in cases:
         for route in ('RigidRotor(atoms=...)', 'get_rot_temperatures_from_atoms(atoms)',
@@ -1006,30 +1057,26 @@ def rot_from_atoms(run, repo):
                 want = [C(0)]
             at = atoms_obj(I, natoms, angle, moments)
             key = '%s, %d atom(s)' % (geom, natoms)
-            if route.startswith('RigidRotor'):
-                o = I.construct(ci, [], {'symmetrynumber': C(1), 'atoms': at}, name='rotor')
-                if isinstance(o, Raised):
-                    run.fail('REF.rot-temperatures', 'RigidRotor.__init__', key,
-                             'RigidRotor(symmetrynumber=1, atoms=<%s structure>) raises %s' % (geom, o.exc),
-                             owner.module, init)
-                    n += 2
-                    continue
-                g = get_public(I, o, 'geometry')
-                run.check(g == geom, 'REF.rot-temperatures', 'RigidRotor.__init__', key + ' geometry',
-                          'the geometry taken from a %s structure is %s' % (geom, show(g)), owner.module, init)
-                judge(I, get_public(I, o, 'rot_temperatures'), want, 'RigidRotor.__init__', key,
-                      'rotational temperatures of RigidRotor(symmetrynumber=1, atoms=<%s structure>)' % geom,
-                      owner.module, init)
-                n += 2
-            else:
-                kw = {'atoms': at}
-                if route.endswith('geometry)'):
-                    kw['geometry'] = geom
-                got = I.call_function(m, fn, [], kw)
-                judge(I, got, want, 'rot.get_rot_temperatures_from_atoms',
-                      key + (' geometry given' if 'geometry' in kw else ''),
-                      'rotational temperatures of a %s structure' % geom, m, fn)
-                n += 1
+            del touched[:]
+            try:
+                n += one(I, at, geom, route, key, want)
+            except Unsupported as e:
+                # (a) once the bent molecule has shown temperatures that are not those of its principal moments, what
+                # the same code does with the other structures is not needed for the verdict (and need not be
+                # decidable: they do not say where their atoms are).  (b) code that cannot be followed but has read
+                # the structure only through the principal moments, the angles and the number of atoms gives a result
+                # that cannot depend on placement or numbering - the clause of the property; that the value is the
+                # textbook one stays undecided for it and is said so.  (c) code that cannot be followed after it has
+                # read coordinates is an analysis error.
+                if not failed and touched:
+                    raise
+                if not failed:
+                    run.note('%s, %s: the structure is read only through its principal moments, angles and size, so '
+                             'the result does not depend on placement or numbering; that it is h^2/(8 pi^2 kB I) is '
+                             'not decided for this code (%s)' % (route, key, str(e)[:120]), m, fn)
+                    if UNDECIDED_ROT not in run.undecided:
+                        run.undecided.append(UNDECIDED_ROT)
+                n += 2 if route.startswith('RigidRotor') else 1
     return n
 
 
@@ -1050,8 +1097,10 @@ def check(run, repo):
     run.assumptions = ['identities over the reals; pmutt.constants modelled as R=kb*Na, kb[u]=kb*U[u], h[u]=h*U[u], '
                        'convert_unit=U[final]/U[initial] (verified on the literal tables by C12)',
                        '_force_pass_arguments/_pass_expected_arguments modelled by their documented contract']
-    run.undecided = ['invariance of geometry-derived parameters under rigid motions / atom permutations (ASE '
-                     'inertia tensor and angle code; numeric tolerances)',
+    run.undecided = ['invariance of geometry-derived parameters under rigid motions / atom permutations: what ASE '
+                     'itself computes (principal moments, angles, chemical formula; numeric tolerances) - decided is '
+                     'that the rotational temperatures are the textbook function of the principal moments and of '
+                     'nothing else the structure says',
                      'LSR / BEP energies beyond the identities (opaque calls into reaction and species objects)',
                      'raise_error/raise_warning behaviour on modes lacking a getter']
     I, store, n_twin, n_deriv = check_modes(run, repo)
@@ -1078,6 +1127,7 @@ R_ = 'pmutt/statmech/rot.py'
 TR = 'pmutt/statmech/trans.py'
 SMI = 'pmutt/statmech/__init__.py'
 EL = 'pmutt/statmech/elec.py'
+MIX = 'pmutt/mixture/__init__.py'
 MUTANTS = [
     {'name': 'harmonic q with the full quantum instead of the zero-point half', 'expect': ('REF.harmonic oscillator q', 'HarmonicVib.get_q'),
      'edits': [(V, '                np.exp(-vib_dimless / 2.) / (1. - np.exp(-vib_dimless)))', '                np.exp(-vib_dimless) / (1. - np.exp(-vib_dimless)))')]},
@@ -1126,6 +1176,50 @@ MUTANTS = [
      'edits': [(EL, 'self._degeneracy = 2. * val + 1.', 'self._degeneracy = val + 1.')]},
     {'name': 'Sackur-Tetrode with V not V/N', 'expect': ('', 'FreeTrans'),
      'edits': [(TR, '(float(self.n_degrees) / 2.) * V / c.Na)', '(float(self.n_degrees) / 2.) * V)')]},
+    # white-box review
+    {'name': 'substitute not added twice: only the first imaginary mode is replaced',
+     'expect': ('ORDER.filter', 'vib_wavenumbers'),
+     'edits': [(V, '        elif substitute is not None:',
+                '        elif substitute is not None and substitute not in wavenumbers_out:')]},
+    {'name': 'several attached models collapsed by a sum also for the partition function',
+     'expect': ('AGG.total', 'StatMech.get_q'),
+     'edits': [(MIX, '                      default_value=0.,\n                      **kwargs):',
+                '                      default_value=0.,\n                      verbose=True,\n'
+                '                      **kwargs):'),
+               (MIX, '    return mix_quantity\n',
+                '    if not verbose:\n        mix_quantity = np.array([np.sum(mix_quantity)])\n'
+                '    return mix_quantity\n')]},
+    {'name': 'include_ZPE named by StatMech.get_q and not handed on', 'expect': ('AGG.option', 'StatMech.get_q'),
+     'edits': [(SMI, '''    def get_q(self,
+              verbose=False,
+              raise_error=True,
+              raise_warning=True,
+              use_references=True,
+              **kwargs):''', '''    def get_q(self,
+              verbose=False,
+              raise_error=True,
+              raise_warning=True,
+              use_references=True,
+              include_ZPE=True,
+              **kwargs):''')]},
+    {'name': 'moment of inertia of a structure not converted from A^2 to m^2',
+     'expect': ('REF.rot-temperatures', 'rot'),
+     'edits': [(R_, """        moment_SI = moment*c.convert_unit(initial='amu', final='kg') \\
+            * c.convert_unit(initial='A2', final='m2')""",
+                """        moment_SI = moment*c.convert_unit(initial='amu', final='kg')""")]},
+    {'name': 'moments of inertia about the axes as given instead of the principal moments',
+     'expect': ('REF.rot-temperatures', 'rot'),
+     'edits': [(R_, '    for moment in atoms.get_moments_of_inertia():', '''    moments = []
+    for axis in range(3):
+        about_axis = 0.
+        for position, mass in zip(atoms.get_positions(), atoms.get_masses()):
+            about_axis += mass * (position[0]**2 + position[1]**2 + position[2]**2 - position[axis]**2)
+        moments.append(about_axis)
+    for moment in moments:''')]},
+    {'name': 'quasi-RRHO Cv divides the cached vibrational temperatures in place',
+     'expect': ('', 'QRRHOVib'),
+     'edits': [(V, '        CvoR = []\n        vib_dimless = self._valid_vib_temperatures / T\n',
+                '        CvoR = []\n        vib_dimless = self._valid_vib_temperatures\n        vib_dimless /= T\n')]},
 ]
 EQUIV = [
     {'name': 'harmonic Cv in exp form',
